@@ -11,7 +11,7 @@ fn main() {
         std::process::exit(2);
     }
     let rest = &args[2..];
-    let code = match args[1].as_str() {
+    let code = std::panic::catch_unwind(|| match args[1].as_str() {
         "replay-prog" => xv::prog::cmd_replay(rest),
         "prog-record" => xv::prog::cmd_record(rest),
         "rev-record" => xv::rev::cmd_record(rest),
@@ -47,6 +47,14 @@ fn main() {
         other => {
             eprintln!("unknown subcommand {}", other);
             2
+        }
+    });
+    let code = match code {
+        Ok(c) => c,
+        Err(_) => {
+            // a panic of the code under test outside every guarded section (e.g. while a state is cloned, dumped or dropped)
+            eprintln!("UNGUARDED-PANIC {}", xv::LAST_PANIC.with(|l| l.borrow().clone()));
+            101
         }
     };
     std::process::exit(code);
